@@ -69,11 +69,13 @@ SeedGetM(key) == LET I == {j \in 1..Len(seeds) : seeds[j].key = key} IN
 SeedPutM(key, r) == Append(SelectSeq(seeds, LAMBDA m : m.key # key), [key |-> key] @@ r)
 \* Grammar.parse() runs the *optimized* grammar (peg/base.py Grammar.optimized, Optional.optimized): an optional whose body is an
 \* optional, a closure or a non-positive join/gather is replaced by that body - which loses the optional's own define() of its names.
+\* The body is kept wrapped when it contains a cut: a closure / optional that saw a cut RAISES when its body then fails, and the
+\* enclosing optional is what absorbs that failure (the collapse let it escape: KF-C05-2, repaired).
 RECURSIVE Optimized(_)
 Optimized(e) == CASE e.op \in Nary -> [e EXCEPT !.es = [i \in 1..Len(e.es) |-> Optimized(e.es[i])]]
                   [] e.op = "join" -> [e EXCEPT !.e = Optimized(e.e)]
                   [] e.op = "opt" -> LET x == Optimized(e.e) IN
-                                     IF x.op \in {"opt", "star"} \/ (x.op = "join" /\ ~x.plus) THEN x ELSE [e EXCEPT !.e = x]
+                                     IF (x.op \in {"opt", "star"} \/ (x.op = "join" /\ ~x.plus)) /\ ~HasCut(x) THEN x ELSE [e EXCEPT !.e = x]
                   [] e.op \in Unary -> [e EXCEPT !.e = Optimized(e.e)]
                   [] OTHER -> e
 BodyExp(name) == IF Gen THEN RuleRec(name).exp ELSE Optimized(RuleRec(name).exp)      \* the code generator walks the model as written
